@@ -39,9 +39,16 @@ import (
 
 func init() {
 	RegisterProbe("c03", func(data []byte) byte {
+		// the independent walk, then the serve loop itself (a nested IPC blob - embedded payload,
+		// wrapped request column - with a corrupted length prefix makes the binder allocate
+		// gigabytes: slow, not a crash; such inputs are skipped by the parent)
 		t0 := time.Now()
 		_, _ = c01Parse(data)
-		if time.Since(t0) > 200*time.Millisecond {
+		func() {
+			defer func() { _ = recover() }() // a panic is classified by the parent's own run
+			c02Server(false).Serve(bytes.NewReader(data), io.Discard)
+		}()
+		if time.Since(t0) > 400*time.Millisecond {
 			return 's'
 		}
 		return 'k'
